@@ -1,10 +1,13 @@
 package main
 
 import (
+	"encoding/json"
 	"fmt"
 	"go/ast"
 	"go/token"
 	"go/types"
+	"os"
+	"path/filepath"
 	"sort"
 	"strings"
 
@@ -237,12 +240,17 @@ func runC15(c *Ctx) {
 						addH(mc.Fn.(*ssa.Function))
 					}
 				case *ssa.MakeClosure:
-					// closure created in handler context; conservatively assume it is called there unless only used by go
+					// closure created in handler context; conservatively assume it is called there unless it is only
+					// handed to a goroutine launcher (go statement, sync.WaitGroup.Go)
 					onlyGo := true
 					for _, u := range referrersOf(x) {
-						if _, isGo := u.(*ssa.Go); !isGo {
-							onlyGo = false
+						if _, isGo := u.(*ssa.Go); isGo {
+							continue
 						}
+						if ci, isCall := u.(ssa.CallInstruction); isCall && calleeName(ci.Common()) == "sync.(*WaitGroup).Go" {
+							continue
+						}
+						onlyGo = false
 					}
 					if !onlyGo {
 						addH(x.Fn.(*ssa.Function))
@@ -336,13 +344,57 @@ func (c *Ctx) engineOpOK(op blockOp, W map[string]bool) (bool, string) {
 	return c.auditedNonBlocking(op)
 }
 
-// auditedNonBlocking: per-site table of operations proven non-blocking by a buffered single-shot channel. One reason per key.
-var auditedOps = map[string]string{}
+// auditedNonBlocking: per-site table (audit/c15_audited.json, committed, never written at run time) of operations
+// the classifier cannot discharge by itself and that were confirmed safe by reading the code; one reason per key,
+// with the number of sites that may share the key.
+type auditEntry struct {
+	Rule    string `json:"rule"`
+	Key     string `json:"key"`
+	Count   int    `json:"count"`
+	Verdict string `json:"verdict"`
+	Reason  string `json:"reason"`
+}
+
+var auditTable map[string]*auditEntry
+var auditUsed = map[string]map[ssa.Instruction]bool{}
+
+func loadAudit() {
+	if auditTable != nil {
+		return
+	}
+	auditTable = map[string]*auditEntry{}
+	b, err := os.ReadFile(filepath.Join(verifDir, "audit", "c15_audited.json"))
+	if err != nil {
+		return
+	}
+	var f struct {
+		Entries []auditEntry `json:"entries"`
+	}
+	if json.Unmarshal(b, &f) != nil {
+		return
+	}
+	for i := range f.Entries {
+		e := &f.Entries[i]
+		auditTable[e.Key] = e
+	}
+}
 
 func (c *Ctx) auditedNonBlocking(op blockOp) (bool, string) {
+	loadAudit()
 	k := opKey(op)
-	if why, ok := auditedOps[k]; ok {
-		return true, "audited: " + why
+	if e, ok := auditTable[k]; ok && e.Verdict == "safe" {
+		if auditUsed[k] == nil {
+			auditUsed[k] = map[ssa.Instruction]bool{}
+		}
+		auditUsed[k][op.instr] = true
+		if len(auditUsed[k]) <= e.Count {
+			r := e.Reason
+			if len(r) > 220 {
+				r = r[:220] + "…"
+			}
+			return true, "audited (" + fmt.Sprint(e.Count) + " site(s)): " + r
+		}
+		return false, ""
 	}
 	// locally provable: send on a channel made in this function with capacity >= 1 and exactly one send
 	if op.kind == "send" {
